@@ -70,3 +70,13 @@ register(
 LEVEL_TEXT["C05"] = ("The clean decision guard ('last worker closes the door') and the readiness predicates are proved "
                      "for all heaps and worker sets; the unset/sync request discipline is checked exhaustively over the "
                      "finite policy domain (bounded stand-in, labelled).")
+
+register(
+    "C02",
+    modules=["contracts.c16", "contracts.node_getters", "contracts.node_decisions", "contracts.node_edges", "contracts.runner"],
+    level="proof",
+    explanation="safety clauses of the traversal: pick/drop error freedom, bounded result wait, definite status",
+    trusted=[],
+    undecided_clauses=["global termination, deadlock freedom, 'every test executed at least once' (liveness)"],
+)
+LEVEL_TEXT["C02"] = "in progress"
